@@ -144,3 +144,16 @@ SPECS['C15'] = {
     'thorough': [J('c15', 'fast', srcs=['harness/venv.c']), J('c15', 'asan', srcs=['harness/venv.c'], deadline=1200)],
     'budget': {'quick': 150, 'thorough': 1500},
 }
+
+SPECS['C16'] = {
+    'level': 'exploration',
+    'technique': 'exhaustive enumeration of signer/recipient counts 1..4, key-object provenance, content lengths and every single-bit modification inside the fields the property names (located with the harness DER walker), on the real CMS code',
+    'claim': 'For every signer set and recipient set of 1..4 parties, key objects obtained by generation / DER import / PEM import and the content-length set, signed, enveloped, encrypted and signed-and-enveloped messages round-trip; every single-bit change inside content, signature value, encrypted key, IV or ciphertext of a short message, a non-recipient key, a key/certificate mismatch and a zero-signer SignedData are refused.',
+    'trusted': 'harness DER walker locates the named fields; bit flips outside those fields (e.g. inside embedded certificates, which SignedData does not sign) are unspecified and not judged',
+    'rule': 'sign-verify: signers 1..4 x 3 key origins x 7 content lengths {0,1,15,16,17,4096,65536}; all bit flips inside content/signature for content<=17; swapped signer keys; zero SignerInfos. envelop: recipients 1..4 x 7 lengths, each of the 4 parties x 3 key origins tries to open, key/cert mismatch, all bit flips in own encrypted key / IV / ciphertext. encrypt/decrypt with wrong key and IV/ciphertext flips; set_data; sign-and-envelop signers x recipients x lengths. distinct = (parties, origin, length, flipped bit).',
+    'bound': {'quick': 'large contents only for <=2 parties; sign+envelop for signers+recipients<=4', 'thorough': 'full cross product'},
+    'assumptions': ['more than 4 parties and 2-bit changes are not covered'],
+    'quick': [J('c16', 'fast', srcs=['harness/venv.c']), J('c16', 'asan', srcs=['harness/venv.c'], deadline=110)],
+    'thorough': [J('c16', 'fast', srcs=['harness/venv.c']), J('c16', 'asan', srcs=['harness/venv.c'], deadline=1200)],
+    'budget': {'quick': 150, 'thorough': 1500},
+}
